@@ -41,6 +41,8 @@ const (
 	keyPrefix                 = "/tables/"
 	sequenceKey               = keyPrefix + "sys/idseq"
 	tableIDsRangeStart uint64 = 10000
+	// defaultRestoreBatchSize is the size of a restore proposal when MaxInMemLogSize does not limit it.
+	defaultRestoreBatchSize uint64 = 8 * 1024 * 1024
 )
 
 func NewManager(nh *dragonboat.NodeHost, members map[uint64]string, store store, cfg Config) *Manager {
@@ -623,9 +625,17 @@ func (m *Manager) readIntoTable(id uint64, reader io.Reader) error {
 
 			batchCmd.Table = cmd.Table
 			batchCmd.LeaderIndex = cmd.LeaderIndex
-
-			if uint64(estimatedSize) < m.cfg.Table.MaxInMemLogSize/2 {
+			// The record that crosses the threshold belongs to the batch too, the final marker carries no pair.
+			if cmd.Kv != nil {
 				batchCmd.Batch = append(batchCmd.Batch, cmd.Kv)
+			}
+
+			// MaxInMemLogSize == 0 means the in-memory log is unlimited, keep the proposals reasonably sized anyway.
+			limit := m.cfg.Table.MaxInMemLogSize / 2
+			if limit == 0 {
+				limit = defaultRestoreBatchSize
+			}
+			if uint64(estimatedSize) < limit {
 				continue
 			}
 		}
